@@ -21,7 +21,7 @@ def sh(cmd, **kw):
 
 
 def main():
-    src, sid, checks = sys.argv[1], sys.argv[2], sys.argv[3:]
+    src, sid, checks = os.path.abspath(sys.argv[1]), sys.argv[2], sys.argv[3:]
     scratch = f"/tmp/seedtest_{sid}_{os.getpid()}"
     shutil.rmtree(scratch, ignore_errors=True)
     sh(f"git -C /repo worktree prune; git -C /repo worktree add -q --detach {scratch} HEAD")
